@@ -21,7 +21,7 @@ from vmon.props import c12
 
 LEVEL = "exploration"
 SHARDS = {"quick": 16, "thorough": 16}
-MUST = ["streams", "options.combos_seen", "solo.packets", "solo.unrecognized", "solo.flagged", "solo.framed_object_parses", "interleavings.exhaustive",
+MUST = ["streams", "options.combos_seen", "solo.packets", "solo.unrecognized", "solo.flagged", "solo.framed_object_parses", "options.root_override_interleaved", "interleavings.exhaustive",
         "interleavings.random", "interleavings.threads", "interleave.segmented", "immutability.snapshots", "setattr.monitored_classes"]
 RULE = ("(a) streams of 5-40 generated packets mixing several APIDs x {recognised, unrecognised (dead end / ambiguous), "
         "longer than consumed, shorter than consumed} under all 8 combinations of parse_bad_pkts, "
@@ -286,6 +286,32 @@ def check_streams(ctx, d):
             ctx.violation(f"stream-vs-solo/{kind}/{combo}", f"stream yields differ from the per-packet solo results at item {i} ({len(got)} vs {len(exp)} items); "
                           f"packet classes: {classes[:20]}", {"doc": d, "options": combo, "classes": classes, "index": i,
                                                              "got": got[i] if i < len(got) else None, "expected": exp[i] if i < len(exp) else None})
+        if not headers_only and parse_bad and yield_unrec and len(doc.containers) > 1 and d % 2 == 0:
+            # a per-generator option (root_container_name override) belongs to that generator: run one with another root under
+            # the immutability monitors, half advanced while a default generator runs, then compare the default one with the solos
+            other = next(c.name for c in doc.containers if c.name != doc.root)
+            g_def = defn.packet_generator(stream, parse_bad_pkts=True, yield_unrecognized_packet_errors=True)
+            with Immut(ctx, defn, "packet_generator(root_container_name=...)"):
+                g_ov = defn.packet_generator(stream, root_container_name=other, parse_bad_pkts=True, yield_unrecognized_packet_errors=True)
+                monitored(next, g_ov)
+                monitored(next, g_ov)
+            got2 = []
+            for _ in range(len(raws) + 2):
+                s2 = monitored(next, g_def)
+                if s2.exc is not None:
+                    if not isinstance(s2.exc, StopIteration):
+                        got2.append(("exception", type(s2.exc).__name__, str(s2.exc)[:200]))
+                    break
+                got2.append(plain_item(s2.value))
+                monitored(next, g_ov)
+            g_def.close()
+            g_ov.close()
+            ctx.count("options.root_override_interleaved")
+            if got2 != exp:
+                i = next((k for k, (a, b) in enumerate(zip(got2, exp)) if a != b), min(len(got2), len(exp)))
+                ctx.violation("stream-vs-solo/after-root-override-generator", f"a default generator advanced together with a generator created with root_container_name={other!r} "
+                              f"differs from the solo results at item {i}", {"doc": d, "other_root": other, "index": i,
+                                                                           "got": got2[i] if i < len(got2) else None, "expected": exp[i] if i < len(exp) else None})
         # model cross-check (where the model decodes): positions of unrecognized packets and partial data
         if not headers_only:
             for o, s in zip(outs, solos):
